@@ -327,6 +327,61 @@ Section HeapModel.
     end.
 
   Definition lineages (ops : list hop) : list (list (pop cond)) := fold_left lin_step ops [[]].
+
+  (* ---- the exploration discipline of SEVM.run (a LIFO worklist; the parent of a fork keeps
+     running, the fork is activated after everything started later on the same solver is
+     done): per solver object, the Path object running on it and its forks that wait for
+     activation, most recent first.  Appends and forks come from the running path only; a
+     waiting fork is activated only when it is the most recent one.  A program that leaves
+     the discipline has no schedule (None). *)
+  Record sched : Type := mkSched {
+    sc_solver_of : list nat;        (* Path object -> solver object *)
+    sc_current : list nat;          (* solver object -> the Path object running on it *)
+    sc_waiting : list (list nat);   (* solver object -> forks not yet activated *)
+  }.
+
+  Definition sched_init : sched := mkSched [0%nat] [0%nat] [[]].
+
+  Definition is_current (sc : sched) (i : nat) : bool :=
+    Nat.ltb i (List.length (sc_solver_of sc)) &&
+    match nth_error (sc_current sc) (nth i (sc_solver_of sc) 0%nat) with
+    | Some j => Nat.eqb j i
+    | None => false
+    end.
+
+  Definition sched_step (sc : sched) (o : hop) : option sched :=
+    match o with
+    | HAppend i _ _ => if is_current sc i then Some sc else None
+    | HBranch i _ =>
+        if is_current sc i then
+          let s := nth i (sc_solver_of sc) 0%nat in
+          Some (mkSched (sc_solver_of sc ++ [s])%list (sc_current sc)
+                        (upd (sc_waiting sc) s (List.length (sc_solver_of sc) :: nth s (sc_waiting sc) [])))
+        else None
+    | HActivate j =>
+        if Nat.ltb j (List.length (sc_solver_of sc)) then
+          let s := nth j (sc_solver_of sc) 0%nat in
+          match nth s (sc_waiting sc) [] with
+          | j' :: rest =>
+              if Nat.eqb j' j then Some (mkSched (sc_solver_of sc) (upd (sc_current sc) s j) (upd (sc_waiting sc) s rest))
+              else None
+          | [] => None
+          end
+        else None
+    | HSlice i _ => if Nat.ltb i (List.length (sc_solver_of sc)) then Some sc else None
+    | HExtend i _ =>
+        if Nat.ltb i (List.length (sc_solver_of sc)) then
+          Some (mkSched (sc_solver_of sc ++ [List.length (sc_current sc)])%list
+                        (sc_current sc ++ [List.length (sc_solver_of sc)])%list
+                        (sc_waiting sc ++ [[]])%list)
+        else None
+    end.
+
+  Fixpoint sched_run (sc : sched) (ops : list hop) : option sched :=
+    match ops with
+    | [] => Some sc
+    | o :: r => match sched_step sc o with Some sc' => sched_run sc' r | None => None end
+    end.
 End HeapModel.
 
 Arguments mkHPath {cond}.
